@@ -394,7 +394,7 @@ func (r *run) jwtRSCaseOn(card identity.Card, v jwt.Verifier, stream string, ks 
 	user, host string, mu *Mut) int {
 	_, hp, cp := parseSegs(tok)
 	c := &Case{Stream: stream, Op: "jwtrs", Fam: "jwt-rs", Now: z(now), Tok: hx16(tok), HP: hp, CP: cp, Mut: mu,
-		Card: cardObs(ks, tok)}
+		Card: cardObs(ks, tok), History: r.hist}
 	var t *jwt.Token
 	var err error
 	if self {
